@@ -50,6 +50,10 @@ def extra(res, tier, seed, workdir):
                  "threadsafe CacheArea refused with GeographicErr", "cache-extent law checked"):
         if not res.events.get(must):
             res.inconclusive.append("expected regime never observed: " + must)
+    try:
+        _geoideval(res, tier, seed, workdir)
+    except Exception as e:           # the tool step itself failing is a harness problem, not a verdict
+        res.inconclusive.append("GeoidEval step failed: %r" % (e,))
     # raster directories of aborted shards (sanitizer abort / watchdog) are normally reaped by the next harness start; sweep now too
     try:
         for d in os.listdir("/dev/shm"):
@@ -58,6 +62,115 @@ def extra(res, tier, seed, workdir):
                 shutil.rmtree(p, ignore_errors=True)
     except OSError:
         pass
+
+
+def _geoideval(res, tier, seed, workdir):
+    """tools/GeoidEval on python-written rasters (a third, independent writer): the printed heights must not depend on the
+    cache options (-a, -c) and, for -l, must equal a bilinear interpolation done here; malformed files give exit 1, not a crash"""
+    import os, random, struct, subprocess, sys
+    sys.path.insert(0, os.path.join(os.path.dirname(os.path.dirname(os.path.abspath(__file__))), "lib"))
+    import vbuild
+    rnd = random.Random(seed * 7919 + 20)
+    d = os.path.join(workdir, "geoideval")
+    os.makedirs(d, exist_ok=True)
+    nviol = [0]
+
+    def viol(key, detail, flavour):
+        nviol[0] += 1
+        if nviol[0] <= 6:
+            res.add_viol(dict(key=key, **{"class": "GeoidEval"}, run="GeoidEval." + flavour, section="GeoidEval", idx=0, seed=seed,
+                              flavour=flavour, harness="checks/C20.py", detail=detail))
+
+    def write(name, w, h, pix, off, sc, body_extra=b""):
+        with open(os.path.join(d, name + ".pgm"), "wb") as f:
+            f.write(("P5\n# Description python raster\n# Offset %r\n# Scale %r\n%d %d\n65535\n" % (off, sc, w, h)).encode())
+            f.write(struct.pack(">%dH" % (w * h), *pix))
+            f.write(body_extra)
+
+    def bilin(w, h, pix, off, sc, lat, lon):
+        from fractions import Fraction as Fr
+        lat, lon = Fr(lat), Fr(lon)
+        x = lon * w / 360
+        y = (90 - lat) * (h - 1) / 180
+        ix = x.numerator // x.denominator
+        iy = min(h - 2, y.numerator // y.denominator)
+        fx, fy = x - ix, y - iy
+        g = lambda i, j: pix[j * w + (i % w)]
+        a = (1 - fx) * g(ix, iy) + fx * g(ix + 1, iy)
+        b = (1 - fx) * g(ix, iy + 1) + fx * g(ix + 1, iy + 1)
+        return float(Fr(off) + Fr(sc) * ((1 - fy) * a + fy * b))
+
+    flavours = ["o2"] if tier == "quick" else ["o2", "asan"]
+    env = dict(os.environ)
+    from driver import SAN_ENV
+    env.update(SAN_ENV)
+    total = 0
+    for fl in flavours:
+        exe = vbuild.tools(fl)["GeoidEval"]
+        for (w, h) in ((8, 5), (36, 19), (72, 37)):
+            pix = [rnd.randrange(65536) for _ in range(w * h)]
+            off, sc = -108.0, 0.003
+            name = "py%dx%d" % (w, h)
+            write(name, w, h, pix, off, sc)
+            pts = []
+            for _ in range(300):
+                r = rnd.random()
+                if r < 0.15:
+                    pts.append((90 - rnd.randrange(h) * 180.0 / (h - 1), rnd.randrange(-w // 2, w // 2 + 1) * 360.0 / w))
+                elif r < 0.25:
+                    pts.append((rnd.choice([90.0, -90.0, 0.0]), rnd.choice([180.0, -180.0, 0.0, rnd.uniform(-180, 180)])))
+                else:
+                    pts.append((round(rnd.uniform(-90, 90), 6), round(rnd.uniform(-180, 180), 6)))
+            inp = "".join("%.10f %.10f\n" % p for p in pts)
+            rects = [["-c", "-20", "-30", "40", "50"], ["-c", "-90", "170", "90", "-170"], ["-c", "10", "-5", "80", "5"], ["-a"], []]
+            for interp in ([], ["-l"]):
+                outs = []
+                for rc in rects:
+                    p = subprocess.run([exe, "-n", name, "-d", d] + interp + rc, input=inp, stdout=subprocess.PIPE, stderr=subprocess.PIPE, text=True, env=env, timeout=300)
+                    if p.returncode != 0:
+                        viol("tool:C20/GeoidEval/nonzero-exit-on-valid-file", dict(args=interp + rc, rc=p.returncode, stderr=p.stderr[-1500:], raster=name), fl)
+                    outs.append(p.stdout)
+                    total += len(pts)
+                for k, o in enumerate(outs[:-1]):
+                    if o != outs[-1]:
+                        bad = [(pts[i], a, b) for i, (a, b) in enumerate(zip(o.splitlines(), outs[-1].splitlines())) if a != b][:3]
+                        viol("tool:C20/GeoidEval/output-depends-on-cache-option", dict(args=interp + rects[k], raster=name, first_differences=bad), fl)
+                if interp:
+                    for (la, lo), line in zip(pts, outs[-1].splitlines()):
+                        try:
+                            got = float(line)
+                        except ValueError:
+                            viol("tool:C20/GeoidEval/unparsable-output", dict(line=line, lat=la, lon=lo), fl)
+                            continue
+                        want = bilin(w, h, pix, off, sc, "%.10f" % la, "%.10f" % lo)
+                        if abs(got - want) > 0.5e-4 + 1e-9:
+                            viol("tool:C20/GeoidEval/bilinear-value", dict(lat=la, lon=lo, got=got, want=want, raster=name), fl)
+            # height conversions through the tool
+            p1 = subprocess.run([exe, "-n", name, "-d", d, "-l", "--msltohae"], input="10 20 100\n", stdout=subprocess.PIPE, stderr=subprocess.PIPE, text=True, env=env)
+            p2 = subprocess.run([exe, "-n", name, "-d", d, "-l", "--haetomsl"], input="10 20 100\n", stdout=subprocess.PIPE, stderr=subprocess.PIPE, text=True, env=env)
+            try:
+                n = bilin(w, h, pix, off, sc, "10", "20")
+                a, b = float(p1.stdout.split()[-1]), float(p2.stdout.split()[-1])
+                if abs(a - (100 + n)) > 1e-4 or abs(b - (100 - n)) > 1e-4:
+                    viol("tool:C20/GeoidEval/height-conversion", dict(msltohae=p1.stdout, haetomsl=p2.stdout, N=n), fl)
+            except (ValueError, IndexError):
+                viol("tool:C20/GeoidEval/height-conversion-unparsable", dict(o1=p1.stdout, o2=p2.stdout, e1=p1.stderr[-500:]), fl)
+        # malformed files through the tool: an error message and exit status 1, never a signal
+        write("bad_long", 4, 3, [7] * 12, -108.0, 0.003, b"\0")
+        with open(os.path.join(d, "bad_short.pgm"), "wb") as f:
+            f.write(b"P5\n# Offset -108\n# Scale 0.003\n4 5\n65535\n" + bytes(16))
+        with open(os.path.join(d, "bad_noscale.pgm"), "wb") as f:
+            f.write(b"P5\n# Offset 1\n2 3\n65535\n" + bytes(12))
+        with open(os.path.join(d, "bad_magic.pgm"), "wb") as f:
+            f.write(b"P6\n# Offset 1\n# Scale 1\n2 3\n65535\n" + bytes(12))
+        for name in ("bad_long", "bad_short", "bad_noscale", "bad_magic", "does_not_exist"):
+            p = subprocess.run([exe, "-n", name, "-d", d], input="1 2\n", stdout=subprocess.PIPE, stderr=subprocess.PIPE, text=True, env=env)
+            total += 1
+            if p.returncode != 1 or "rror" not in p.stderr:
+                viol("tool:C20/GeoidEval/malformed-file-not-refused-cleanly", dict(file=name, rc=p.returncode, stdout=p.stdout[-300:], stderr=p.stderr[-1500:]), fl)
+    res.evals += total
+    res.classes["tool/GeoidEval"] = res.classes.get("tool/GeoidEval", 0) + total
+    res.events["GeoidEval points evaluated (x cache options)"] = total
 
 
 MANIFEST = dict(
